@@ -57,6 +57,16 @@ def width_table(ctx, tk, rule):
             ok = d.k == "attr" and d.a[1] == "dtype" and d.a[0].k == "param" and d.a[0].a[0] == vp
         elif not any(x.k == "call" and x.a[0].k == "attr" and x.a[0].a[1] == "view" for x in walk(tm)) and reint is not None:
             ok = False
+            # a buffer allocated in the values' own dtype (filled through an unsigned view of it) needs no reinterpretation
+            base = tm
+            while base.k in ("sub", "upd"):
+                base = base.a[0]
+            if np_call(base, {"zeros", "empty", "zeros_like", "empty_like"}):
+                d = dict(base.a[2]).get("dtype")
+                if d is not None and d.k == "attr" and d.a[1] == "dtype" and d.a[0].k == "param" and d.a[0].a[0] == vp:
+                    ok = True
+                elif np_call(base, {"zeros_like", "empty_like"}) and d is None and base.a[1] and base.a[1][0].k == "param" and base.a[1][0].a[0] == vp:
+                    ok = True
         ctx.decide(rule, f, "the broadcast result is viewed back as the values' original dtype", ok,
                    "the unsigned bit pattern is returned without reinterpretation as the original dtype", node=r.ast, key="view-back", engine="E6")
 
